@@ -392,6 +392,7 @@ theorem compS_mono (cx : Ctx) : ∀ (s : Stmt) (lp : LoopCtx) (st : St), st.scop
     | some e => simp only [compS]; exact ⟨by simp [newLocal_cnt], newLocal_len _ _ hne⟩
   | exprStmt e => intro lp st _; simp [compS]
   | discard e => intro lp st _; simp [compS]
+  | panicS e => intro lp st _; simp [compS]
   | ite c thn k els iht ihe =>
     intro lp st hne
     have ht := iht lp (ifStT cx c st) (by simp)
@@ -453,6 +454,7 @@ def Simple : Stmt → Prop
   | .varDecl _ _ none => True
   | .varDecl _ _ (some _) => False
   | .exprStmt _ => False
+  | .panicS _ => False
   | .ite c t _ e => NoCall c ∧ Simple t ∧ Simple e
   | .loop _ _ _ _ => False
   | .ret none => True
@@ -532,6 +534,7 @@ theorem compS_wf (cx : Ctx) : ∀ (s : Stmt) (lp : LoopCtx) (st : St), Wf st →
     | some e => simp only [compS]; exact wf_nl (wf_newLocal h x) _
   | exprStmt e => intro lp st h; simp only [compS]; exact wf_nl h _
   | discard e => intro lp st h; simp only [compS]; exact wf_nl h _
+  | panicS e => intro lp st h; simp only [compS]; exact wf_nl h _
   | ite c thn k els iht ihe =>
     intro lp st h
     have hT : Wf (ifStT cx c st) := wf_push (wf_nl (wf_push (wf_nl h _)) _)
@@ -723,6 +726,7 @@ theorem compS_tail (cx : Ctx) : ∀ (s : Stmt) (lp : LoopCtx) (st : St), st.scop
     | some e => simp only [compS]; exact newLocal_tail _ x hne
   | exprStmt e => intro lp st _; simp [compS]
   | discard e => intro lp st _; simp [compS]
+  | panicS e => intro lp st _; simp [compS]
   | ite c thn k els iht ihe =>
     intro lp st hne
     have ht := iht lp (ifStT cx c st) (by simp)
@@ -936,6 +940,7 @@ theorem stmtOK_succ (P : Prog) (cx : Ctx) (fuel : Nat) (ih : StmtOK P cx fuel) :
       | stuck => rw [hv] at hex; simp at hex
       | timeout => rw [hv] at hex; simp at hex
   | exprStmt e => simp [Simple] at hsimp
+  | panicS e => simp [Simple] at hsimp
   | loop a b c d => simp [Simple] at hsimp
   | brk => simp [Simple] at hsimp
   | cont => simp [Simple] at hsimp
